@@ -76,6 +76,13 @@ V8_NAMES = {"__m512i", "__attribute__((__vector_size__(8 * sizeof(long long)))) 
 def classify(t):
     """-> (cat, extra). cat in u64,int,bool,v4,v8,m8,m16,ptr,arr,void,other"""
     t0 = t.strip()
+    # the cubic-extension element is a typedef of Goldilocks::Element[3]: a 3-word region
+    g3 = re.match(r"^(const\s+)?(Goldilocks3::)?Element(\s+const)?\s*(&|\*|\*\s*const)?$", t0)
+    if g3 and "Goldilocks3" in t0:
+        isconst = bool(g3.group(1) or g3.group(3))
+        if g3.group(4) and g3.group(4).startswith("*"):
+            return ("ptr", ("u64", isconst))
+        return ("arr", ("u64", 3, isconst))
     isref = t0.endswith("&")
     if isref:
         t0 = t0[:-1].strip()
@@ -122,8 +129,10 @@ ZERO_OF = {"u64": "0#64", "bool": "false", "v4": "V4.zero", "v8": "V8.zero", "m8
            "ptr": "Region.zero", "arr": "Region.zero", "int": "(0 : Int)"}
 
 
-def type_code(t):
+def type_code(t, refined=False):
     c, ex = classify(t)
+    if refined and c == "u64" and "Element" not in t:
+        return "U" if ("const" in t or not t.strip().endswith("&")) else "u"
     isref = t.strip().endswith("&")
     const = "const" in t
     if c == "u64":
@@ -244,26 +253,36 @@ class Translator:
         base = lean_ident(name)
         pre = {"Goldilocks": "", "Goldilocks3": "G3_", "PoseidonGoldilocks": "Pos_", "NTT_Goldilocks": "NTT_"}.get(cls, (cls or "") + "_")
         if len(sibs) > 1:
-            code = "".join(type_code(p["type"]["qualType"]) for p in d.get("inner", []) if p.get("kind") == "ParmVarDecl")
-            rc = classify(d["type"]["qualType"].split("(")[0])[0]
-            base = base + "__" + ("r" if rc != "void" else "") + code
+            def code_of(x, refined):
+                c = "".join(type_code(p["type"]["qualType"], refined) for p in x.get("inner", []) if p.get("kind") == "ParmVarDecl")
+                rc = classify(x["type"]["qualType"].split("(")[0])[0]
+                return ("r" if rc != "void" else "") + c
+            code = code_of(d, False)
+            # refine (uint64_t vs Element) only when two overloads would otherwise collide: keeps names stable
+            if sum(1 for x in sibs if code_of(x, False) == code) > 1:
+                code = code_of(d, True)
+            base = base + "__" + code
         return pre + base
 
     # ------------------------------------------------------------ entry
-    def need_fn(self, def_decl):
+    def need_fn(self, def_decl, alias=None):
+        """alias: tuple of (param name kept, param name merged into it): the aliased call pattern is translated
+        with both parameters bound to ONE Lean variable, so reads of the second see writes to the first."""
         fid = def_decl["id"]
-        if fid in self.fns:
-            return self.fns[fid]
-        if fid in self.prior_fns:
-            return self.prior_fns[fid]
-        if fid in self.in_progress:
+        key = fid if not alias else (fid, tuple(alias))
+        if key in self.fns:
+            return self.fns[key]
+        if key in self.prior_fns:
+            return self.prior_fns[key]
+        if key in self.in_progress:
             raise Unsupported(def_decl, "recursion")
-        self.in_progress.add(fid)
+        self.in_progress.add(key)
         try:
-            info = FnCtx(self, def_decl).translate()
+            info = FnCtx(self, def_decl).translate(alias=alias)
         finally:
-            self.in_progress.discard(fid)
-        self.fns[fid] = info
+            self.in_progress.discard(key)
+        info.key = key
+        self.fns[key] = info
         self.order.append(info)
         self.items.append(info.text)
         return info
@@ -514,6 +533,10 @@ class FnCtx:
         if k == "ArraySubscriptExpr":
             # element of an array of arrays (e.g. Goldilocks3::Element a[4]) is not supported here
             raise Unsupported(n, "nested array")
+        if k == "CallExpr":
+            return self.call_expr(n)
+        if k == "UnaryOperator" and n["opcode"] == "*":
+            return self.region(n["inner"][0])
         raise Unsupported(n, "pointer expression")
 
     def cond(self, n):
@@ -712,6 +735,8 @@ class FnCtx:
             bt, bw = self.lvalue_region(a0["inner"][0])
             i = self.as_nat(self.ex(a0["inner"][1]), a0)
             return "(Region.shift %s %s)" % (bt, i), (lambda new: bw("(Region.unshift %s %s %s)" % (bt, i, new)))
+        if k == "UnaryOperator" and a0["opcode"] == "*":
+            return self.lvalue_region(a0["inner"][0])      # *p where p points to an array: the same region
         raise Unsupported(a, "unsupported written pointer")
 
     def call_stmt(self, n, want_value=False):
@@ -732,9 +757,29 @@ class FnCtx:
         if d is None:
             raise Unsupported(n, "call to unknown function " + name)
         info = self.tr.need_fn(d)
+        # the same variable passed for a written parameter and for another parameter: aliased call pattern
+        def plain_var(a):
+            a0 = self.skip(a)
+            while (a0.get("kind") in ("CStyleCastExpr", "ImplicitCastExpr") or
+                   (a0.get("kind") == "UnaryOperator" and a0.get("opcode") == "*")) and a0.get("inner"):
+                a0 = self.skip(a0["inner"][0])
+            if a0.get("kind") == "DeclRefExpr" and a0["referencedDecl"]["id"] in self.env:
+                return self.env[a0["referencedDecl"]["id"]]["name"]
+            return None
+        pv = [plain_var(a) for a in args[:len(info.params)]]
+        pairs = []
+        for i, p in enumerate(info.params):
+            if p["mode"] in ("out", "inout") and pv[i] is not None:
+                for j, q in enumerate(info.params):
+                    if j != i and pv[j] == pv[i] and q["cat"] == p["cat"] and q.get("mode") != "merged":
+                        pairs.append((p["cname"], q["cname"]))
+        if pairs:
+            info = self.tr.need_fn(d, alias=tuple(pairs))
         ins = []
         wbs = []
         for p, a in zip(info.params, args):
+            if p["mode"] == "merged":
+                continue
             if p["mode"] == "in":
                 ins.append(self.arg_in(p, a))
             else:
@@ -1166,11 +1211,12 @@ class FnCtx:
         tr_asm.translate(self, n)
 
     # ------------------------------------------------------------ whole function
-    def translate(self):
+    def translate(self, alias=None):
         d = self.decl
         info = FnInfo()
         info.decl = d
-        info.lean_name = self.tr.fn_lean_name(d)
+        info.alias = alias
+        info.lean_name = self.tr.fn_lean_name(d) + ("".join("_al_%s_%s" % (a, b) for a, b in alias) if alias else "")
         fty = d["type"]["qualType"]
         rett = fty.split("(")[0].strip()
         rc = classify(rett)[0]
@@ -1198,11 +1244,30 @@ class FnCtx:
                 mode = "inout"
             else:
                 mode = "in"
-            info.params.append({"name": nm, "cat": cat, "mode": mode, "id": p["id"]})
+            info.params.append({"name": nm, "cat": cat, "mode": mode, "id": p["id"], "cname": p.get("name", "")})
             self.env[p["id"]] = {"name": nm, "cat": cat, "const": None}
-        # out-only detection for by-reference scalars/vectors
+        # non-const references / pointers that the body never writes are inputs
+        written = set(self.assigned_vars([body]))
         for p in info.params:
-            if p["mode"] == "inout" and p["cat"] not in ("ptr", "arr"):
+            if p["mode"] == "inout" and p["id"] not in written:
+                p["mode"] = "in"
+        # aliased call pattern: the merged parameter shares the Lean variable of the kept one
+        if alias:
+            byname = {p["cname"]: p for p in info.params}
+            for keep, merged in alias:
+                if keep not in byname or merged not in byname:
+                    raise Unsupported(d, "alias names %s/%s are not parameters" % (keep, merged))
+                pk, pm = byname[keep], byname[merged]
+                if pk["cat"] != pm["cat"]:
+                    raise Unsupported(d, "aliased parameters of different kinds")
+                self.env[pm["id"]] = self.env[pk["id"]]
+                pm["mode"] = "merged"
+                if pk["mode"] == "in":
+                    pk["mode"] = "in"
+        # out-only detection for by-reference scalars/vectors
+        merged_keep = set(k for k, _ in (alias or ()))
+        for p in info.params:
+            if p["mode"] == "inout" and p["cat"] not in ("ptr", "arr") and p["cname"] not in merged_keep:
                 if self.written_before_read(body, p["id"]):
                     p["mode"] = "out"
         for p in info.params:
@@ -1240,7 +1305,7 @@ class FnCtx:
                 return LEAN_TY[o[1]]
             return LEAN_TY[info.params[o[1]]["cat"]]
         rty = " × ".join(oty(o) for o in outs) if outs else "Unit"
-        sig = "".join(" (%s : %s)" % (p["name"], LEAN_TY[p["cat"]]) for p in info.params if p["mode"] != "out")
+        sig = "".join(" (%s : %s)" % (p["name"], LEAN_TY[p["cat"]]) for p in info.params if p["mode"] not in ("out", "merged"))
         src = "%s::%s  %s" % (d.get("_class"), d["name"], fty)
         text = "/-- `%s` -/\ndef %s%s : %s :=\n%s" % (src, info.lean_name, sig, rty, "\n".join(self.lines))
         info.text = text
